@@ -5,6 +5,7 @@ package main
 import (
 	"fmt"
 	"go/token"
+	"sort"
 	"strings"
 
 	"golang.org/x/tools/go/ssa"
@@ -119,85 +120,164 @@ func ruleR9() *Rule {
 				})
 				c.check(decStore != nil, "decrement", c.fpos(dec), dname+" decrements Segment.refs by one", "no `refs = refs - 1` store found in the caller of the release routine")
 				// guard
-				var guardOK bool
-				var guardDesc string
-				for b := site.Block(); b != nil; b = b.Idom() {
-					pb := b.Idom()
-					if pb == nil {
+				zeroGuard := func(at ssa.Instruction) (bool, string) {
+					var guardOK bool
+					var guardDesc string
+					for b := at.Block(); b != nil; b = b.Idom() {
+						pb := b.Idom()
+						if pb == nil {
+							break
+						}
+						iff, ok := pb.Instrs[len(pb.Instrs)-1].(*ssa.If)
+						if !ok {
+							continue
+						}
+						bo, ok := iff.Cond.(*ssa.BinOp)
+						if !ok {
+							continue
+						}
+						x, kv := bo.X, bo.Y
+						op := bo.Op
+						k, isK := constInt64(kv)
+						if !isK {
+							// constant on the left: mirror
+							if k2, ok2 := constInt64(bo.X); ok2 {
+								k, x = k2, bo.Y
+								switch op {
+								case token.LSS:
+									op = token.GTR
+								case token.LEQ:
+									op = token.GEQ
+								case token.GTR:
+									op = token.LSS
+								case token.GEQ:
+									op = token.LEQ
+								}
+								isK = true
+							}
+						}
+						if !isK {
+							continue
+						}
+						isRefs := isLoadOfField(x, "Segment", "refs")
+						if decStore != nil && x == decStore.Val {
+							isRefs = true
+						}
+						if !isRefs {
+							continue
+						}
+						// which edge leads to the site?
+						var towardsTrue bool
+						switch {
+						case pb.Succs[0] == b && len(b.Preds) == 1:
+							towardsTrue = true
+						case pb.Succs[1] == b && len(b.Preds) == 1:
+							towardsTrue = false
+						default:
+							continue
+						}
+						// the decrement must precede the guard
+						if decStore != nil && !(decStore.Block() == pb || decStore.Block().Dominates(pb)) {
+							continue
+						}
+						table := map[int64]bool{}
+						okT := true
+						for _, r := range []int64{0, 1, 2} {
+							v, ok := cmpInt(op, r, k)
+							if !ok {
+								okT = false
+							}
+							table[r] = v == towardsTrue
+						}
+						guardDesc = fmt.Sprintf("guard `refs %s %d` at %s: release when refs becomes 0:%v 1:%v 2:%v", op, k, c.pos(iff), table[0], table[1], table[2])
+						if okT && table[0] && !table[1] && !table[2] {
+							guardOK = true
+						}
 						break
 					}
-					iff, ok := pb.Instrs[len(pb.Instrs)-1].(*ssa.If)
-					if !ok {
-						continue
-					}
-					bo, ok := iff.Cond.(*ssa.BinOp)
-					if !ok {
-						continue
-					}
-					x, kv := bo.X, bo.Y
-					op := bo.Op
-					k, isK := constInt64(kv)
-					if !isK {
-						// constant on the left: mirror
-						if k2, ok2 := constInt64(bo.X); ok2 {
-							k, x = k2, bo.Y
-							switch op {
-							case token.LSS:
-								op = token.GTR
-							case token.LEQ:
-								op = token.GEQ
-							case token.GTR:
-								op = token.LSS
-							case token.GEQ:
-								op = token.LEQ
-							}
-							isK = true
-						}
-					}
-					if !isK {
-						continue
-					}
-					isRefs := isLoadOfField(x, "Segment", "refs")
-					if decStore != nil && x == decStore.Val {
-						isRefs = true
-					}
-					if !isRefs {
-						continue
-					}
-					// which edge leads to the site?
-					var towardsTrue bool
-					switch {
-					case pb.Succs[0] == b && len(b.Preds) == 1:
-						towardsTrue = true
-					case pb.Succs[1] == b && len(b.Preds) == 1:
-						towardsTrue = false
-					default:
-						continue
-					}
-					// the decrement must precede the guard
-					if decStore != nil && !(decStore.Block() == pb || decStore.Block().Dominates(pb)) {
-						continue
-					}
-					table := map[int64]bool{}
-					okT := true
-					for _, r := range []int64{0, 1, 2} {
-						v, ok := cmpInt(op, r, k)
-						if !ok {
-							okT = false
-						}
-						table[r] = v == towardsTrue
-					}
-					guardDesc = fmt.Sprintf("guard `refs %s %d` at %s: release when refs becomes 0:%v 1:%v 2:%v", op, k, c.pos(iff), table[0], table[1], table[2])
-					if okT && table[0] && !table[1] && !table[2] {
-						guardOK = true
-					}
-					break
+					return guardOK, guardDesc
 				}
+				guardOK, guardDesc := zeroGuard(site)
 				c.check(guardOK, "guard-1-to-0", c.pos(site), "the release routine runs exactly when the decremented count is 0 (truth table {0: release, 1: keep, 2: keep})",
 					"the call of "+rname+" is not dominated by a guard on the decremented Segment.refs with that truth table: "+guardDesc, "call: "+describeInstr(p, site))
 				// under the mutex
 				lockHeld := heldAtOrAtCallers(p, dec, site, "Segment.m", 0)
 				c.check(lockHeld, "release-under-mutex", c.pos(site), "the release routine is called with Segment.m held", "Segment.m is not held on every path to the call")
+				// the caches of an mmap-ed segment are cleared only when the last reference goes:
+				// "unguarded clearers" = functions that clear a cache on some path that is not behind the
+				// 1->0 guard of the decrementing function; apart from the in-memory Close and the
+				// releaser (called under the guard) no function reachable from the API may be one
+				isCacheClear := func(cs ssa.CallInstruction) bool {
+					f := staticCallee(cs)
+					if f == nil || f.Name() != "Clear" || f.Signature.Recv() == nil {
+						return false
+					}
+					return isNamed(f.Signature.Recv().Type(), zapPkgPath, "vectorIndexCache") || isNamed(f.Signature.Recv().Type(), zapPkgPath, "synonymIndexCache")
+				}
+				unguarded := map[*ssa.Function]ssa.Instruction{}
+				for changed := true; changed; {
+					changed = false
+					for _, fn := range p.ZapFuncs {
+						if _, done := unguarded[fn]; done || fn.Parent() != nil {
+							continue
+						}
+						for _, cs := range callSites(fn) {
+							clears := isCacheClear(cs)
+							if f := staticCallee(cs); f != nil {
+								if _, u := unguarded[f]; u {
+									clears = true
+								}
+							}
+							if !clears {
+								continue
+							}
+							if fn == dec {
+								if ok, _ := zeroGuard(cs); ok {
+									continue
+								}
+							}
+							unguarded[fn] = cs
+							changed = true
+							break
+						}
+					}
+				}
+				scClose := p.Method("SegmentBase", "Close")
+				var bad []string
+				for fn, at := range unguarded {
+					if fn == scClose || fn == rel {
+						continue
+					}
+					if fn.Signature.Recv() != nil && (isNamed(fn.Signature.Recv().Type(), zapPkgPath, "vectorIndexCache") || isNamed(fn.Signature.Recv().Type(), zapPkgPath, "synonymIndexCache")) {
+						continue // the caches' own methods
+					}
+					// a helper all of whose callers are themselves listed (and judged) is not reported separately
+					if fn.Object() != nil && !fn.Object().Exported() {
+						allListed, n := true, 0
+						for _, cs := range p.callersOf(fn) {
+							if par := cs.Parent(); par.Synthetic != "" && len(p.callersOf(par)) == 0 {
+								continue
+							}
+							n++
+							g := rootParent(cs.Parent())
+							if _, u := unguarded[g]; !u {
+								if g == dec {
+									if ok, _ := zeroGuard(cs); ok {
+										continue
+									}
+								}
+								allListed = false
+							}
+						}
+						if allListed && n > 0 {
+							continue
+						}
+					}
+					bad = append(bad, funcShortName(fn)+" ("+c.p.instrPos(at)+")")
+				}
+				sort.Strings(bad)
+				c.check(len(bad) == 0, "clear-only-at-last-release", c.fpos(dec), "the per-segment caches of an opened segment are cleared only behind the 1->0 guard (by the releaser or next to its call) or by the in-memory Close",
+					"cleared while references may remain: "+strings.Join(bad, ", ")+" — a holder of another reference would find its cached FSTs / vector indexes gone (or a nil cache map)")
 			}
 
 			// (d) Close goes through the reference count
@@ -284,7 +364,9 @@ func ruleR9() *Rule {
 				f := staticCallee(cs)
 				return f != nil && f.Name() == "Clear" && f.Signature.Recv() != nil && isNamed(f.Signature.Recv().Type(), zapPkgPath, typ)
 			}
-			tr := func(in ssa.Instruction, ev uint64, _ bool) []uint64 {
+			var tr transferFn
+			helperSum := map[*ssa.Function]uint64{}
+			tr = func(in ssa.Instruction, ev uint64, _ bool) []uint64 {
 				cs, ok := in.(ssa.CallInstruction)
 				if !ok {
 					return nil
@@ -295,13 +377,40 @@ func ruleR9() *Rule {
 				if isClear(cs, "synonymIndexCache") {
 					return []uint64{ev | evSyn}
 				}
+				// a helper of package zap that clears them on every path (`clearCaches()`)
+				if f := staticCallee(cs); f != nil && p.InZap(f) && len(f.Blocks) > 0 && f != rel {
+					sm, done := helperSum[f]
+					if !done {
+						helperSum[f] = 0
+						sm = mustEvents(f, tr) & (evVec | evSyn)
+						helperSum[f] = sm
+					}
+					if sm != 0 {
+						return []uint64{ev | sm}
+					}
+				}
 				return nil
 			}
 			pa := newPathAnalysis(rel, tr)
 			pa.run(0)
+			// what the (single) caller of the releaser has certainly cleared before calling it
+			var atCaller uint64
+			if len(callers) == 1 {
+				cpa := newPathAnalysis(callers[0].Parent(), tr)
+				cpa.run(0)
+				atCaller = evVec | evSyn
+				st := cpa.statesBefore(callers[0])
+				if len(st) == 0 {
+					atCaller = 0
+				}
+				for _, ev := range st {
+					atCaller &= ev
+				}
+			}
 			for i, cs := range unmapSites {
 				okc := true
 				for _, ev := range pa.statesBefore(cs) {
+					ev |= atCaller
 					if ev&evVec == 0 || ev&evSyn == 0 {
 						okc = false
 					}
